@@ -333,10 +333,12 @@ def kani_playback(ws, crate, harness, features=None, timeout=600, solver=None, m
             "timed_out": to or to2}
 
 
-def native_search(ws, crate, test, features=None, targets=(), replay_input=None, seed=0, timeout=900):
+def native_search(ws, crate, test, features=None, targets=(), replay_input=None, seed=0, timeout=900, target_sel=("--lib",), release=False):
     """Run the native failing-input search (or the replay of one stored input) woven under
     cfg(verif_search).  Returns dict(found={obligation: input_line}, output, evaluations)."""
-    cmd = ["cargo", "test", "--offline", "-p", crate, "--lib"]
+    cmd = ["cargo", "test", "--offline", "-p", crate] + list(target_sel)
+    if release:
+        cmd += ["--release"]
     if features:
         cmd += ["--features", features]
     cmd += [test, "--", "--nocapture", "--test-threads", "1"]
